@@ -298,6 +298,6 @@ theorem touch_sim {hf : SlotB → SlotB} {dr : Bool} (hg : ∀ sl, (if dr = true
       obtain ⟨q, hq, hin'⟩ := hasId_of_AR hsigs hh
       exact her q hq hin'
   exact ⟨hR.T, hR.S, hR.G, ptrs_null hle E hgone hR.C, ptrs_null hle E hgone hR.K, hsigs, hR.ownedT,
-    ptrs_null hle E hgone hR.ownedK, hR.next, hR.depth, hR.steps, hR.trace, hR.k1, hR.k2⟩
+    ptrs_null hle E hgone hR.ownedK, hR.ownedG, hR.next, hR.depth, hR.steps, hR.trace, hR.k1, hR.k2⟩
 
 end Sigc.Refine
